@@ -118,6 +118,12 @@ class C13(Engine):
         # Complete pair enumeration on the corpus: one item per (module,
         # first config) = 16 histories of two compiles each.
         for name, _ in corpus_texts(tier):
+            # A dictionary that went through pformat/exec before its first
+            # compile (the `asn1tools parse` + .py specification path).
+            items.append({'kind': 'persisted', 'corpus': name, 'first': 0,
+                          'tier': tier,
+                          'seed': mix(seed, 'persisted', name)})
+
             for first in range(len(CONFIGS)):
                 items.append({'kind': 'pairs', 'corpus': name,
                               'first': first, 'tier': tier,
@@ -143,6 +149,8 @@ class C13(Engine):
 
         if item['kind'] == 'pairs':
             histories = [[first, second] for second in CONFIGS]
+        elif item['kind'] == 'persisted':
+            histories = [[config] for config in CONFIGS]
         else:
             rng = random.Random(item['seed'])
             histories = [[first, rng.choice(CONFIGS), rng.choice(CONFIGS)]
@@ -150,6 +158,9 @@ class C13(Engine):
 
         for history in histories:
             steps_ = []
+
+            if item['kind'] == 'persisted':
+                steps_.append({'op': 'persist'})
 
             for index, (codec, flag) in enumerate(history):
                 steps_.append({'op': 'compile', 'codec': codec,
@@ -264,7 +275,10 @@ class C13(Engine):
 
         def report(cls, detail, index):
             small = dict(case, steps=copy.deepcopy(case['steps'][:index + 1]))
-            result.violation(cls, {'step': case['steps'][index]['op']},
+            persisted = any(s['op'] in ('persist', 'persist_file')
+                            for s in case['steps'][:index])
+            result.violation(cls, {'step': case['steps'][index]['op'],
+                                   'persisted_before': persisted},
                              detail, small)
 
         def check_compile(index, codec, flag, compiled, is_last):
@@ -407,7 +421,9 @@ class C13(Engine):
         return result
 
     def same_violation(self, a, b):
-        return a['class'] == b['class']
+        return a['class'] == b['class'] and (
+            (a.get('signature') or {}).get('persisted_before')
+            == (b.get('signature') or {}).get('persisted_before'))
 
     def shrink(self, case, violation):
         steps_ = case['steps']
